@@ -185,4 +185,109 @@ def check (params : List String) (lines : List String) : CaseResult := Id.run do
   let (sp, nt) := specs d now0 race obs
   return { r with specs := sp, nontrivial := nt }
 
+/-! ## c13e: the same definitions behind a timer catch event in a process run by the engine -/
+
+/-- `e <op> <arg> <listening> <observed> <continued> <end completed> <errors> <armed>` -/
+structure EObs where
+  op : String
+  arg : Int
+  listen : Nat
+  observed : Nat
+  cont : Nat
+  done : Nat
+  errs : Nat
+  armed : List Int
+
+def parseEObs (ln : String) : Option EObs :=
+  match words ln with
+  | ["e", op, arg, l, o, c, dn, er, a] => do
+    pure { op, arg := ← parseInt? arg, listen := ← l.toNat?, observed := ← o.toNat?, cont := ← c.toNat?,
+           done := ← dn.toNat?, errs := ← er.toNat?, armed := ← intList? a }
+  | _ => none
+
+/-- model: the timer (as in `replay`) feeding a catch event that listens from the first operation
+on and stops listening when it continues -/
+def replayEngine (d : Def) (now0 : Int) (cs : List Nat) (obs : List EObs) : Option String := Id.run do
+  let mut s := init d now0
+  let mut first := true
+  let mut active := false
+  let mut n := 0
+  for o in obs do
+    n := n + 1
+    let before := s.fired.length
+    if first then
+      if o.op != "new" then return some s!"op {n}: expected new"
+      first := false
+    else
+      match o.op with
+      | "set" => s := apply d s (.set o.arg)
+      | "add" => s := apply d s (.advance o.arg)
+      | _ => return some s!"op {n}: unknown operation {o.op}"
+    s := settleWith d cs 16 s
+    if !blocked d s then return some s!"op {n}: model not quiescent after 16 steps"
+    let f := s.fired.length - before
+    -- a firing delivered while the event is not (yet) listening is dropped
+    let seen := if active || o.listen > 0 then f else 0
+    if o.listen > 0 then active := true
+    let expObserved := if active then min seen 1 else 0
+    let expCont := expObserved
+    if o.observed != expObserved then
+      return some s!"op {n} {o.op} {o.arg}: observed model {expObserved} impl {o.observed}"
+    if o.cont != expCont then
+      return some s!"op {n} {o.op} {o.arg}: continued model {expCont} impl {o.cont}"
+    if expCont > 0 then active := false
+    if armed s != o.armed then
+      return some s!"op {n} {o.op} {o.arg}: armed model {showInts (armed s)} impl {showInts o.armed}"
+  return none
+
+def checkEngine (params : List String) (lines : List String) : CaseResult := Id.run do
+  let some (d, now0) := (match params with
+      | [_, _, kind, reps, start, iv, e, now0] => do
+        let reps ← parseInt? reps
+        let start ← parseOpt start
+        let iv ← parseInt? iv
+        let e ← parseOpt e
+        let now0 ← parseInt? now0
+        let d ← (match kind with
+          | "date" => start.map Def.date
+          | "duration" => some (Def.duration iv)
+          | "cycle" => some (Def.cycle reps start iv e)
+          | _ => none)
+        pure (d, now0)
+      | _ => none) | return { bad := ["c13e params"] }
+  let mut r : CaseResult := {}
+  let mut obsA : Array EObs := #[]
+  let mut n := 0
+  for ln in lines do
+    n := n + 1
+    match parseEObs ln with
+    | some o => obsA := obsA.push o
+    | none => r := { r with bad := s!"line {n}: {ln}" :: r.bad }
+  let obs := obsA.toList
+  let mut firstDiff : Option String := none
+  let mut agreed := false
+  for cs in choiceLists false do
+    if !agreed then
+      match replayEngine d now0 cs obs with
+      | none => agreed := true
+      | some msg => if firstDiff.isNone then firstDiff := some msg
+  if !agreed then
+    r := { r with diffs := (firstDiff.getD "no resolution of the selects reproduces the history") :: r.diffs }
+  -- the clause of C13 about the process, on the implementation's own traces
+  let mut sp : List String := []
+  let mut active := false
+  let mut total := 0
+  for o in obs do
+    if o.listen > 0 then active := true
+    if o.errs > 0 then sp := s!"catch_once: {o.errs} error traces at {o.op} {o.arg}" :: sp
+    let want := if active && o.observed > 0 then 1 else 0
+    if o.cont != want then
+      sp := s!"catch_once: at {o.op} {o.arg} the catch event observed {o.observed} firings while listening={active} and continued {o.cont} times" :: sp
+    if o.done != o.cont then
+      sp := s!"catch_once: continued {o.cont} times but the end event completed {o.done} times at {o.op} {o.arg}" :: sp
+    if o.cont > 0 then active := false
+    total := total + o.cont
+  if total > 1 then sp := s!"catch_once: continued {total} times for one token" :: sp
+  return { r with specs := sp, nontrivial := total > 0 }
+
 end Bpmn.Driver.C13
